@@ -33,6 +33,9 @@ from .selftest import make_scratch
 V = os.path.dirname(os.path.dirname(os.path.abspath(__file__)))
 
 
+ONLY_RULES: Optional[set] = None  # restrict to these rules (development aid: `rule` mode)
+
+
 def all_findings(root: Optional[str]) -> Tuple[Dict[str, Tuple[Tuple[str, ...], str]], Dict[str, Tuple[Tuple[str, ...], str]]]:
     """({key: (props, text)}, {rule: (props, error)}) for every rule on root."""
     from . import props  # noqa: F401
@@ -42,6 +45,8 @@ def all_findings(root: Optional[str]) -> Tuple[Dict[str, Tuple[Tuple[str, ...], 
     out: Dict[str, Tuple[Tuple[str, ...], str]] = {}
     errs: Dict[str, Tuple[Tuple[str, ...], str]] = {}
     for rd in RULES.values():
+        if ONLY_RULES is not None and rd.name not in ONLY_RULES:
+            continue
         try:
             ro = run_rule(ctx, rd)
         except AnalysisError as e:
@@ -96,11 +101,102 @@ def run(kind: str, ids: List[str], jobs: int = 16) -> List[dict]:
         return list(ex.map(run_patch, tasks))
 
 
+def _rule_mode(rules: List[str]) -> int:
+    """Development aid: everything the corpora and the variant table say about these rules."""
+    global ONLY_RULES
+    import re
+
+    from .selftest import apply_variant
+    from .variants import VARIANTS
+
+    ONLY_RULES = set(rules)
+    bad = 0
+    res = run("benign", [])
+    for r in res:
+        if r["status"] != "silent":
+            bad += 1
+            print("benign", r["id"], "ALARM")
+            for t in r.get("new", [])[:6]:
+                print("     ", t[:400])
+            for k, t in r.get("errors", {}).items():
+                print("      ERR", k, t[:300])
+    print(f"== benign silent: {sum(1 for r in res if r['status'] == 'silent')}/{len(res)}")
+    want: Dict[str, set] = {}
+    evf = f"{V}/seeded/EVAL_current.txt"
+    if os.path.exists(evf):
+        for line in open(evf):
+            m = re.match(r"(C\d\d-\w+) exit=1 rules=(\S*)", line)
+            if m:
+                hit = set(m.group(2).split(",")) & ONLY_RULES
+                if hit:
+                    want[m.group(1)] = hit
+    res = run("seeded", sorted(want))
+    ok = 0
+    for r in res:
+        fired = set(r.get("rules", []))
+        miss = want[r["id"]] - fired
+        if miss:
+            bad += 1
+            print("seeded", r["id"], "no longer fired by", sorted(miss), "| errors:", r.get("errors"))
+        else:
+            ok += 1
+    print(f"== seeded still fired: {ok}/{len(res)}")
+    # variant table
+    base, berr = all_findings(None)
+    if berr:
+        print("baseline errors", berr)
+        return 1
+    tasks = [v for v in VARIANTS if (v["kind"] == "keep") or (set(v.get("rules") or []) & ONLY_RULES)]
+    with ProcessPoolExecutor(max_workers=16) as ex:
+        out = list(ex.map(_run_variant_all, [(v, set(base)) for v in tasks]))
+    okv = 0
+    for v, (status, new, errs) in zip(tasks, out):
+        if status == "skipped":
+            continue
+        if v["kind"] == "keep":
+            if new or errs:
+                bad += 1
+                print("variant(keep)", v["id"], "ALARM", new[:3], errs)
+            else:
+                okv += 1
+        else:
+            hit = [t for t in new if t.split(" ", 1)[0] in (set(v.get("rules") or []) & ONLY_RULES)]
+            if not hit:
+                # a variant may list several rules; it is enough if one of them still fires
+                print("variant(break)", v["id"], "not fired by", sorted(set(v.get("rules") or []) & ONLY_RULES), "| new:", new[:2], "| errors:", errs)
+                bad += 1
+            else:
+                okv += 1
+    print(f"== variants ok: {okv}/{len(tasks)}")
+    return 1 if bad else 0
+
+
+def _run_variant_all(args):
+    from .selftest import apply_variant
+
+    v, base_keys = args
+    d = make_scratch(repo_root())
+    try:
+        skip = apply_variant(d, v)
+        if skip:
+            return ("skipped", [], {})
+        try:
+            found, errs = all_findings(d)
+        except Exception as e:  # noqa: BLE001
+            return ("error", [], {"<internal>": repr(e)})
+        new = sorted(t[1] for k, t in found.items() if k not in base_keys)
+        return ("ran", new, {k: v_[1] for k, v_ in errs.items()})
+    finally:
+        shutil.rmtree(d, ignore_errors=True)
+
+
 def main(argv: List[str]) -> int:
     verbose = "-v" in argv
     argv = [a for a in argv if a != "-v"]
     which = argv[0] if argv else "all"
     ids = argv[1:]
+    if which == "rule":
+        return _rule_mode(ids)
     bad = 0
     for kind in ("benign", "seeded"):
         if which not in (kind, "all"):
